@@ -95,6 +95,10 @@ def pw_cases(tier, inst):
             for eps in (0.1, 0.5, 1.0):
                 for hot in (True, False):
                     yield {"kind": "lattice", "y": list(v), "eps": eps, "hot": hot}
+            if n >= 3:
+                # the same polyline given as INTEGERS (a JSON payload without decimal points), abscissa step 3
+                yield {"kind": "lattice", "y": list(v), "eps": 0.5, "hot": True, "ints": True}
+                yield {"kind": "lattice", "y": list(v), "eps": 1.0, "hot": False, "ints": True}
     for kind in ("convex", "concave", "sigmoid", "staircase", "steamlike"):
         for n in (11, 50, 500) if tier == "thorough" else (11, 50):
             for eps in (0.05, 0.1, 0.5, 1.0):
@@ -121,7 +125,10 @@ def _dist_point_polyline(p, poly):
 def pw_run(case, res: Result):
     from OpenPinch.utils.stream_linearisation import get_piecewise_data_points
 
-    if case["kind"] == "lattice":
+    if case["kind"] == "lattice" and case.get("ints"):
+        ys = [int(v) for v in case["y"]]
+        xs = [3 * i for i in range(len(ys))]
+    elif case["kind"] == "lattice":
         ys = [float(v) for v in case["y"]]
         xs = [float(i) for i in range(len(ys))]
     else:
